@@ -18,7 +18,7 @@ out = [f'''
 
 {len(rows)} changes to go-gorm/gorm were written by fresh sub-agents that saw only the text of one
 property and a scratch worktree (never /verif): {cnt[1][0]} in a first round (two per property), {cnt[2][0]} in a second
-(three per property), {cnt[3][0]} in a third, {cnt[4][0]} in a fourth, {cnt[5][0]} in a fifth, {cnt[6][0]} in a sixth and {cnt[7][0]} in a seventh (two per property each; a property
+(three per property), {cnt[3][0]} in a third, {cnt[4][0]} in a fourth, {cnt[5][0]} in a fifth, {cnt[6][0]} in a sixth, {cnt[7][0]} in a seventh and {cnt[8][0]} in an eighth (two per property each; a property
 has fewer where an agent delivered only one change that passed the whole suite, where a delivered change
 could not be confirmed, or where a change was retired, see below). From round 2 on the agents were told which
 functions earlier rounds had changed and were asked for other mechanisms: error paths, second uses of a
@@ -29,7 +29,7 @@ change both modules build, the full existing suite passes, the demonstration fai
 re-runs the property's check against every change.
 
 **Missed by the check as it stood when the change arrived: round 1: {cnt[1][1]} of {cnt[1][0]}; round 2: {cnt[2][1]} of {cnt[2][0]};
-round 3: {cnt[3][1]} of {cnt[3][0]}; round 4: {cnt[4][1]} of {cnt[4][0]}; round 5: {cnt[5][1]} of {cnt[5][0]}; round 6: {cnt[6][1]} of {cnt[6][0]}; round 7: {cnt[7][1]} of {cnt[7][0]}.** The share of misses does not fall from round to round: every round's
+round 3: {cnt[3][1]} of {cnt[3][0]}; round 4: {cnt[4][1]} of {cnt[4][0]}; round 5: {cnt[5][1]} of {cnt[5][0]}; round 6: {cnt[6][1]} of {cnt[6][0]}; round 7: {cnt[7][1]} of {cnt[7][0]}; round 8: {cnt[8][1]} of {cnt[8][0]}.** The share of misses does not fall from round to round: every round's
 testers were told what the earlier ones had changed and were steered towards rarer combinations (round 6:
 interactions of three features, rarely used entry points and flags, state kept between two calls), while
 the checks had only been extended for what had been delivered so far. With the exceptions listed at the end, every miss was a gap in the workload, not
@@ -39,7 +39,8 @@ repair of gorm touched the same lines (C04-d, C11-b, C11-d, C11-e, C14-e, C17-b)
 repeat earlier ones (C07-f = C07-e, C14-f = C14-e), as do some of round 4 (C02-i = C02-g, C07-i = C07-e,
 C14-h = C14-e, C11-h = C08-c seen from C11, C09-i and C17-h close to C09-f and C17-e/f): independent
 testers keep finding the same weak spots, which is itself information (round 7 again: C07-n = C07-l, C07-p = C07-k,
-C14-n = C14-l, C17-p = C17-l, C01-p is the fault class of C11-l on another slice). Retired (kept under
+C14-n = C14-l, C17-p = C17-l, C01-p is the fault class of C11-l on another slice; round 8: C05-q and C04-q
+are the same line seen from two properties, C07-r is the fault class of C06-b / C01-p on the GROUP BY lists). Retired (kept under
 `/verif/retired/`, not part of the matrix): {', '.join(retired) or 'none'} - a change whose effect disappeared when
 the defect found through it was repaired in gorm (its meta.json says how it was caught on the tree before the repair).
 
@@ -92,6 +93,19 @@ What the misses had in common, and what was done about the pattern rather than t
   value and the context object of the driver call itself (C18-n/p); DryRun switched on by a scope (C19-n);
   blanks in struct tags and fields shadowed by a same-named outer field (C20-n/p); the zeroValue soft-delete
   variant, a hook that deletes through the handle it is given (C08-n/p); Connection blocks (C04-p, C14-p).
+* **Round 8**: templates mixing `?` and `@name`, a table-valued function as Table() (C01-q/r); a single-member
+  Or handed to Clauses(), a keyed element in front of a keyless one in a Model(slice) (C02-q/r); a read through
+  a destination that carries a key with a zero part (C03-r); a caller's own ConnPool below the handle, UPDATE ..
+  RETURNING inside a block (C04-q/r); stacked prepared-statement wrappers, a write issued from an AfterFind hook
+  (C05-q/r); a kept Raw sub-query used twice, Not(invalid) straight on a handle (C06-q/r); a shared handle with
+  three HAVING conditions (C07-r); the marked twin with the lower key under FirstOrCreate+Assign, association
+  writes on an Unscoped handle (C08-q/r); belongs-to Clear of a keyless owner (C09-r); permission tags on relation
+  fields, OnConflict.Where (C10-q/r); Association().Unscoped().Find, a relation preloaded twice (C11-q/r); an
+  update with an empty SET list, a Raw query finished by Find (C13-q/r); Row() in front of a second read on a chain
+  value (C15-r); a second Assign, a soft-delete clause moved behind the key (C16-r/x); a name registered twice
+  (C17-q); a context bound by a scope in front of FindInBatches (C18-q); ToSQL on a handle with a context, a Create
+  that enters with its statement filled (C19-q/r); blanks in the tags a join table inherits, scopes that register
+  scopes in front of AutoMigrate (C20-q/r); Row() on a cached statement of another transaction (C14-q/r).
 * **Rounds 4 and 5, same five patterns, further out.** Second use: a handle derived from a chain that
   stays in use (C06-k), FindInBatches run from a handle (C06-j), a second Raw on a chain value, a handle per
   goroutine (C07-j), a record reachable twice in one Create (C13-h). Error paths: zero-row statements whose
@@ -147,7 +161,12 @@ that return a session or add conditions (C19, C01, C15), used slice and map-slic
 the unique tag of a shadowed field (C20), same-named relations in embedded structs (C11, two), a belongs-to
 key with a zero part under FullSaveAssociations (C12), scopes registered by the scopes of a grouped handle
 (C02); plus KF-C12-8 and KF-C02-1..4. Most of these came from the testers' asides or from the sub-agents that
-widened the workloads, not from a seeded change itself.
+widened the workloads, not from a seeded change itself. Round 8 (defects 84-96): Begin on a handle that
+carries an error (C04), templates mixing `?` and `@name` (C01), the error of one owner lost in association mode
+over several owners and AfterFind on the unused elements of an array (C13), the key of a model value behind two
+pointers and OR next to a quote or comment (C02), a handle with an empty WHERE clause as grouped condition (C09),
+the Connection block (C06 / C04 / C14), joins left behind by Scan / Rows / Row (C06), `DO NOTHING WHERE` (C10),
+Unscoped belongs-to Clear (C08); plus KF-C05-1 and KF-C17-19..22.
 ''')
 p = '/verif/DESIGN.md'
 s = open(p).read()
